@@ -18,8 +18,9 @@ var plans = map[string]Plan{
 		},
 	},
 	"C17": {
-		Pkg:   "c17",
-		Tools: []string{"simfinetune"},
+		TraceCases: true,
+		Pkg:        "c17",
+		Tools:      []string{"simfinetune"},
 		Runs: []Run{
 			{Test: "^TestProps$/^no_leak$", Checks: checks(40, 600), Shards: shards(4, 16)},
 			{Test: "^TestProps$/^tuner_cli$", Checks: checks(8, 120), Shards: shards(3, 8)},
@@ -31,7 +32,8 @@ var plans = map[string]Plan{
 		},
 	},
 	"C09": {
-		Pkg: "c09",
+		TraceCases: true,
+		Pkg:        "c09",
 		Runs: []Run{
 			{Test: "^TestProps$/^sched_independent$", Checks: checks(150, 4000), Shards: shards(4, 8)},
 			{Test: "^TestProps$/^sched_independent_pipelined$", Checks: checks(150, 4000), Shards: shards(4, 8)},
@@ -58,7 +60,8 @@ var plans = map[string]Plan{
 		},
 	},
 	"C04": {
-		Pkg: "c04",
+		TraceCases: true,
+		Pkg:        "c04",
 		Runs: []Run{
 			{Test: "^TestProps$/^sim_history$", Checks: checks(1500, 30000), Shards: shards(4, 16)},
 			{Test: "^TestProps$/^hdl_history$", Checks: checks(250, 8000), Shards: shards(4, 16)},
@@ -79,6 +82,7 @@ var plans = map[string]Plan{
 			{Test: "^TestProps$/^ambiguity$", Checks: checks(40000, 500000), Shards: shards(4, 16)},
 			{Test: "^TestProps$/^roundtrip$", Checks: checks(25000, 300000), Shards: shards(4, 16)},
 			{Test: "^TestProps$/^widths$", Checks: checks(15000, 150000), Shards: shards(4, 16)},
+			{Test: "^TestProps$/^history$", Checks: checks(6000, 80000), Shards: shards(2, 8)},
 		},
 		Fuzz: []Fuzz{{Target: "FuzzImportString", Time: 3 * time.Minute}},
 		Assumptions: []string{
@@ -134,8 +138,9 @@ var plans = map[string]Plan{
 		},
 	},
 	"C02": {
-		Pkg:   "c02",
-		Level: "translation_validation",
+		TraceCases: true,
+		Pkg:        "c02",
+		Level:      "translation_validation",
 		Runs: []Run{
 			{Test: "^TestProps$/^whole_machine$", Checks: checks(150, 4000), Shards: shards(6, 16)},
 		},
@@ -146,7 +151,8 @@ var plans = map[string]Plan{
 		},
 	},
 	"C06": {
-		Pkg: "c06",
+		TraceCases: true,
+		Pkg:        "c06",
 		Runs: []Run{
 			{Test: "^TestProps$/^partitions$", Checks: checks(60, 1500), Shards: shards(8, 16), Timeout: tmo(15*time.Minute, 60*time.Minute)},
 		},
@@ -195,7 +201,7 @@ var plans = map[string]Plan{
 		Runs: []Run{
 			{Test: "^TestProps$/^inproc_basm$", Checks: checks(20, 400), Shards: shards(3, 8)},
 			{Test: "^TestProps$/^inproc_neuralbond$", Checks: checks(4, 40), Shards: shards(1, 2)},
-			{Test: "^TestProps$/^inproc_bmqsim$", Checks: checks(3, 25), Shards: shards(1, 2)},
+			{Test: "^TestProps$/^inproc_bmqsim$", Checks: checks(3, 8), Shards: shards(1, 4)},
 			{Test: "^TestProps$/^inproc_hdl$", Checks: checks(30, 600), Shards: shards(1, 1)},
 			{Test: "^TestProps$/^cli_basm$", Checks: checks(5, 40), Shards: shards(2, 4)},
 			{Test: "^TestProps$/^cli_neuralbond$", Checks: checks(2, 8), Shards: shards(1, 2)},
@@ -228,7 +234,8 @@ var plans = map[string]Plan{
 		},
 	},
 	"C05": {
-		Pkg: "c05",
+		TraceCases: true,
+		Pkg:        "c05",
 		Runs: []Run{
 			{Test: "^TestProps$/^streams$", Checks: checks(110, 2400), Shards: shards(8, 16), Timeout: tmo(15*time.Minute, 90*time.Minute)},
 			{Test: "^TestProps$/^macro_shapes$", Checks: checks(50, 1000), Shards: shards(8, 16), Timeout: tmo(15*time.Minute, 90*time.Minute)},
